@@ -111,7 +111,8 @@ DEVIATIONS = {
             ("MC_GroupLaw.tla", "MC_GroupLaw.cfg", 'Dev = "none"', 'Dev = "equal-ignores-x"')],
     "C06": [("MC_Mont.tla", "MC_Mont.cfg", 'Dev = "none"', 'Dev = "carry-always-one"'),
             ("MC_Mont.tla", "MC_Mont.cfg", 'Dev = "none"', 'Dev = "add-no-final-sub"')],
-    "C12": [("MC_Mont.tla", "MC_Mont.cfg", 'Dev = "none"', 'Dev = "opp-zero-is-m"')],
+    "C12": [("MC_Mont.tla", "MC_Mont.cfg", 'Dev = "none"', 'Dev = "opp-zero-is-m"'),
+            ("MC_Mont.tla", "MC_Mont.cfg", 'Dev = "none"', 'Dev = "mul-final-sub-on-overflow-only"')],
     "C08": [("Memo.tla", "MC_Memo_none.cfg", 'Design = "none"', 'Design = "by_reference"')],
     "C09": [("Memo.tla", "MC_Memo_none.cfg", 'Design = "none"', 'Design = "by_reference"')],
     "C10": [("MC_History.tla", "MC_History.cfg", 'Dev = "none"', 'Dev = "equal-ignores-y"')],
